@@ -9,8 +9,8 @@ TECH = "bounded symbolic execution of the real code's go/ssa with SMT (z3 QF_BV)
 # property -> dict(text, note, design_ref)
 CLAIMED = {
  "C19": dict(
-  text="Bounded symbolic execution (symgo) of the real marbl.Reader.ReadFrame from SSA on a fully symbolic input buffer cut at every length: z3 shows, for every byte value within the bound, no Go panic, frame XOR error, error iff the declared lengths do not fit, and decoded fields equal to an independent parse. Bounded model checking is the right level: the defect class (32-bit length wrap) needs one rare input that only a solver produces.",
-  note="Bounds: input = 19+k bytes, k=3 quick / 6 thorough, 32-bit sum of declared lengths <= k (wrapping sums included). Trusted: go/ssa, the symgo interpreter, z3; bufio/io/encoding/binary are executed from SSA, not stubbed.",
+  text="Bounded symbolic execution of the real marbl code from SSA. (a) Reader: ReadFrame on a fully symbolic input buffer cut at every length: z3 shows, for every byte value within the bound, no Go panic, frame XOR error, error iff the declared lengths do not fit, decoded fields equal to an independent parse (this found the 32-bit length wrap). (b) Stream: LogRequest + bodyLogger with symbolic id and header value bytes and scripted body reads; every Write to the sink is exactly one whole frame, frames decode (real Reader and independent parser) to the message's pseudo-headers and headers, data frames have contiguous indices from 0, concatenate to what the consumer read and end with a terminal frame iff the body reached EOF. (c) Concurrency: two logging goroutines and the stream's writer goroutine under the engine's cooperative scheduler, every schedule within the preemption bound: frames are never torn or interleaved within a frame and per-message order is kept.",
+  note="Bounds: reader input = 19+k bytes, k=3 quick / 6 thorough, 32-bit sum of declared lengths <= k (wrapping sums included); stream: 1..2 (quick) / 1..3 (thorough) scripted reads of 0..2 bytes; concurrency: 2 messages x 3 frames, preemption bound 1 (quick, 60k schedules) / 2 (thorough, 1.6M schedules). Trusted: go/ssa, the symgo interpreter and scheduler, z3; bufio/io/encoding/binary are executed from SSA.",
   ref="DESIGN.md section 6, C19"),
  "C20": dict(
   text="Bounded symbolic execution of the real body.Modifier.ModifyResponse (strings.Split/TrimSpace, strconv.Atoi, multipart.Writer all executed from SSA) on symbolic content and symbolic Range headers; z3 shows for every header within the bound: no panic, body readable with Content-Length equal to its length, and the outcome is full content, a 416 only when some range is malformed/unsatisfiable, or a 206 whose bytes, Content-Range and multipart framing equal an RFC 7233 reference computed in the harness.",
